@@ -207,10 +207,16 @@ func main() {
 			if err == nil && isHosted {
 				// the facade is transparent: propose and read through it, then read locally
 				cmd, _ := (&kv.KV{Key: fmt.Sprintf("k%d", q), Val: fmt.Sprintf("v%d", q)}).MarshalBinary()
+				sessBefore := [4]uint64{ps.ShardID, ps.ClientID, ps.SeriesID, ps.RespondedTo}
 				resp, perr := api.Propose(ctx(), &mr.RaftProposal{Session: ps, Data: cmd})
 				if perr != nil {
 					run.Count("c19:inconclusive_propose")
 				} else {
+					// the local SyncPropose leaves the caller's session as it was (the caller completes the proposal itself):
+					// so does the facade, field by field
+					if after := [4]uint64{ps.ShardID, ps.ClientID, ps.SeriesID, ps.RespondedTo}; after != sessBefore {
+						fail("facade_transparent", "session-changed-by-propose", fmt.Sprintf("Propose through the facade left the session as (shard, client, series, responded-to) = %v, it was %v and the local call leaves it untouched", after, sessBefore))
+					}
 					if resp.Result != uint64(len(cmd)) {
 						fail("facade_transparent", "propose-result", "Propose through the facade returned another result than the state machine's")
 					}
@@ -225,8 +231,34 @@ func main() {
 					run.Count("c19:propose_read_checked")
 				}
 				if res == "tracked" {
-					if _, cerr := api.CloseSession(ctx(), ps); cerr != nil {
+					if perr == nil {
+						// as a local caller would: the proposal is completed before the session is used again
+						cs := drummer.ToNodeHostSession(ps)
+						if func() (c bool) {
+							defer func() {
+								if r := recover(); r != nil {
+									c = true
+								}
+							}()
+							cs.ProposalCompleted()
+							return false
+						}() {
+							fail("facade_transparent", "session-unusable-after-propose", "the session handed back by Propose through the facade cannot be completed (ProposalCompleted panics on it)")
+							continue
+						}
+						ps = drummer.ToPBSession(cs)
+					}
+					cr, cerr := api.CloseSession(ctx(), ps)
+					if cerr != nil || cr == nil || !cr.Completed {
 						run.Count("c19:inconclusive_close")
+					} else {
+						// closing it a second time fails locally (the session is gone): the facade has to say so
+						lerr := h.NH.SyncCloseSession(ctx(), drummer.ToNodeHostSession(ps))
+						cr2, cerr2 := api.CloseSession(ctx(), ps)
+						run.Count("c19:double_close_checked")
+						if lerr != nil && (cerr2 == nil || (cr2 != nil && cr2.Completed)) {
+							fail("every_error_mapped", "close-failure-hidden", fmt.Sprintf("closing a session that is already closed fails locally (%v), the facade answered completed=%v error=%v", lerr, cr2 != nil && cr2.Completed, cerr2))
+						}
 					}
 				}
 			}
